@@ -430,7 +430,7 @@ func (fr *Frame) contractCall(in *ssa.Call, callee *ssa.Function, c *Contract, a
 		}
 	}
 	res := fr.havocResult(in.Type(), name)
-	if fr.fn.Pkg != nil && fr.fn.Pkg == ex.p.mainPkg || callee.Name() == "CallFunction" {
+	if fr.fn.Pkg != nil && fr.fn.Pkg == ex.p.mainPkg || callee.Name() == "CallFunction" || (fr.top && ex.c != nil && ex.c.UsesCallRecords) {
 		// remember what was passed and returned, for \arg(f, i) and \ret(f, i) in the caller's contract
 		for i := range callee.Params {
 			if t := vars[callee.Params[i].Name()].T; t != nil {
